@@ -216,25 +216,28 @@ def write_fasta(
 
 
 def _build_newick(tree, *, node, precision, node_labels, include_branch_lengths):
-    label = node_labels.get(node, "")
-    if tree.is_leaf(node):
-        s = f"{label}"
-    else:
-        s = "("
-        for child in tree.children(node):
-            branch_length = tree.branch_length(child)
-            subtree = _build_newick(
-                tree,
-                node=child,
-                precision=precision,
-                node_labels=node_labels,
-                include_branch_lengths=include_branch_lengths,
-            )
-            if include_branch_lengths:
-                subtree += ":{0:.{1}f}".format(branch_length, precision)
-            s += subtree + ","
-        s = s[:-1] + f"){label}"
-    return s
+    # Iterative postorder traversal, so that deep trees do not hit the
+    # interpreter's recursion limit.
+    subtrees = {}
+    stack = [(node, False)]
+    while len(stack) > 0:
+        u, children_done = stack.pop()
+        label = node_labels.get(u, "")
+        if tree.is_leaf(u):
+            subtrees[u] = f"{label}"
+        elif not children_done:
+            stack.append((u, True))
+            stack.extend((child, False) for child in tree.children(u))
+        else:
+            s = "("
+            for child in tree.children(u):
+                subtree = subtrees.pop(child)
+                if include_branch_lengths:
+                    branch_length = tree.branch_length(child)
+                    subtree += ":{0:.{1}f}".format(branch_length, precision)
+                s += subtree + ","
+            subtrees[u] = s[:-1] + f"){label}"
+    return subtrees[node]
 
 
 def build_newick(tree, *, root, precision, node_labels, include_branch_lengths):
